@@ -122,8 +122,9 @@ def decode(d):
 
 
 def run(ctx, res):
-    n = ctx.n(500, 10000)
-    max_rows = 60 if ctx.tier == "quick" else 400
+    # (the model's median is an insertion sort run by the Lean interpreter: quadratic in the rows)
+    n = ctx.n(500, 4000)
+    max_rows = 60 if ctx.tier == "quick" else 150
     cases = [gen_case(ctx.rng, max_rows) for _ in range(n)]
     # fixed corner cases first
     cases[:0] = [
